@@ -10,6 +10,7 @@ import (
 	asv1 "github.com/pingcap/advanced-statefulset/client/apis/apps/v1"
 	corev1 "k8s.io/api/core/v1"
 
+	"verif/harness/mon"
 	"verif/harness/refspec"
 	"verif/harness/simapi"
 	"verif/harness/world"
@@ -207,13 +208,24 @@ func runC15(ctx *Ctx) *Result {
 	return res
 }
 
+// runC15Hostile: the hostile scenario family (valid defaulted specs, faults, lag, restarts, re-created
+// sets, caches catching up mid-reconcile) under the panic monitor only.
+func runC15Hostile(ctx *Ctx) *Result {
+	chk := func(v *mon.View, st mon.Stats) []mon.Violation { return nil }
+	run := scenarioFamilyOpt("C15", cfgSlotHeavy, chk, func(v *mon.View) bool { return v.AnyErr || v.R.Err != nil }, nil, true)
+	res := run(ctx)
+	res.Stats["hostile_scenario_reconciles"] = res.Evaluations
+	return res
+}
+
 func init() {
+	n1 := scenarioCases(40000, 600000)
 	register(&Check{Prop: "C15", Level: "exploration",
-		Rule: "StatefulSets are generated as JSON over the fields the shipped CRD knows (each optional block absent / empty / partially filled / hostile: nil and negative partition, unknown policy and strategy strings, malformed and out-of-range annotations, hostile status), admitted and defaulted by an interpreter of manifests/crd.v1.yaml, decoded into the Go type, with or without client-side defaulting, combined with a random pod population at ordinals 0..9, then reconciled 6 times with kubelet progress in between; a panic (or a dead worker process) is a violation; distinct = distinct (admitted object, population)",
+		Rule: "StatefulSets are generated as JSON over the fields the shipped CRD knows (each optional block absent / empty / partially filled / hostile: nil and negative partition, unknown policy and strategy strings, malformed and out-of-range annotations, hostile status), admitted and defaulted by an interpreter of manifests/crd.v1.yaml, decoded into the Go type, with or without client-side defaulting, combined with a random pod population at ordinals 0..9, then reconciled 6 times with kubelet progress in between; plus the hostile scenario family (defaulted specs under faults, lag, restarts, deleted and re-created sets, caches catching up mid-reconcile) under the same panic monitor; a panic (or a dead worker process) is a violation; distinct = distinct (admitted object, population)",
 		Assume: []string{"objects without a spec at all, and replicas so large that the per-ordinal slice cannot be allocated, are outside the generated domain (the statement lists the four required spec fields as validated)",
 			"JSON that the CRD admits but that does not decode into the Go type never reaches the controller (the informer fails earlier) and is skipped"},
-		Cases:            scenarioCases(40000, 600000),
-		Run:              runC15,
-		Floors:           []string{"reconciled_with_nil_partition", "reconciled_with_negative_partition", "without_client_side_defaulting", "with_client_side_defaulting", "annotation_slots_malformed"},
+		Cases:            func(t string) int { return n1(t) + scenarioCases(2400, 48000)(t) },
+		Run:              both(runC15, n1, runC15Hostile),
+		Floors:           []string{"reconciled_with_nil_partition", "reconciled_with_negative_partition", "without_client_side_defaulting", "with_client_side_defaulting", "annotation_slots_malformed", "hostile_scenario_reconciles"},
 		DeathIsViolation: true})
 }
